@@ -1,6 +1,721 @@
-/- Helper lemmas for LC/Props/C05.lean. TO BE PROVED (no sorry may remain). -/
+/- Helper lemmas for LC/Props/C05.lean. -/
 import LC.Spec.TokSpec
 import LC.Model.V2Env
 namespace LC.V2Tok
 open LC.Utf8
+
+/-! ### a decomposition of `step` -/
+
+/-- what a non-space rune appends to a word in progress -/
+def contOf (E : Env) (r : Rune) : List Rune :=
+  match E.punct r with
+  | some rep => rep.map E.toLower
+  | none => [E.toLower r]
+
+/-- the newline branch of `step` -/
+def nlStep (E : Env) (normalize : Bool) (s : State) : State :=
+  if s.obuf ≠ [] ∧ s.obuf.getLast? = some hyphen then
+    { s with obuf := s.obuf.dropLast, deferredEOL := true }
+  else
+    let linebuf := if s.obuf ≠ [] then s.linebuf ++ [flushWord E s.obuf] else s.linebuf
+    let doc := appendLine E normalize s.doc s.line linebuf
+    let obuf := if linebuf ≠ [] then [] else s.obuf
+    let doc := if normalize then doc else { doc with toks := doc.toks ++ [{ word := [nl], line := s.line }] }
+    { s with obuf := obuf, linebuf := [], line := s.line + 1, doc := doc }
+
+/-- the state after flushing the word in progress on a space (before the rune is re-read) -/
+def spaceFlush (E : Env) (normalize : Bool) (s : State) : State :=
+  let linebuf := s.linebuf ++ [flushWord E s.obuf]
+  let s1 : State :=
+    if s.deferredWord then
+      { s with linebuf := [], deferredWord := false, line := s.line + 1,
+               doc := appendLine E normalize s.doc s.line linebuf }
+    else { s with linebuf := linebuf }
+  { s1 with obuf := [] }
+
+/-- a non-space rune continuing a word -/
+def contStep (s : State) (c : List Rune) : State :=
+  let s1 := if s.deferredEOL then { s with deferredEOL := false, deferredWord := true } else s
+  { s1 with obuf := s1.obuf ++ c }
+
+theorem step_eq (E : Env) (n : Bool) (s : State) (r : Rune) :
+    step E n s r =
+      if r = nl then nlStep E n s
+      else if s.obuf = [] then startOrSkip E n s r
+      else if E.isSpace r then
+        (if s.deferredEOL then s else startOrSkip E n (spaceFlush E n s) r)
+      else contStep s (contOf E r) := by
+  unfold step nlStep spaceFlush contStep contOf
+  by_cases h1 : r = nl
+  · simp only [h1, if_true]
+  · simp only [h1, if_false]
+    by_cases h2 : s.obuf = []
+    · simp only [h2, if_true]
+    · simp only [h2, if_false]
+      by_cases h3 : E.isSpace r = true
+      · simp only [h3, if_true]
+      · simp only [h3]
+        cases hp : E.punct r <;> rfl
+
+/-! ### congruence under equal signatures -/
+
+theorem step_congr' (E : Env) (n : Bool) (s : State) (r r' : Rune) (h : sig E n r = sig E n r') :
+    step E n s r = step E n s r' := by
+  unfold sig at h
+  rw [Sig.mk.injEq] at h
+  obtain ⟨hnl, hfirst, hspace, hcont⟩ := h
+  have hnl' : (r = nl) ↔ (r' = nl) := by
+    constructor
+    · intro e
+      have : (r == nl) = true := by simp [e]
+      rw [hnl] at this
+      simpa using this
+    · intro e
+      have : (r' == nl) = true := by simp [e]
+      rw [← hnl] at this
+      simpa using this
+  have hstart : ∀ t : State, startOrSkip E n t r = startOrSkip E n t r' := by
+    intro t
+    unfold startOrSkip
+    by_cases a : E.starter r = true <;> by_cases b : E.starter r' = true
+    · simp only [a, b, if_true] at hfirst ⊢
+      have := Option.some.inj hfirst
+      rw [this]
+    · simp [a, b] at hfirst
+    · simp [a, b] at hfirst
+    · simp [a, b]
+  have hc : E.isSpace r = false → contOf E r = contOf E r' := by
+    intro hsp
+    have hsp' : E.isSpace r' = false := by rw [← hspace]; exact hsp
+    simp only [hsp, hsp'] at hcont
+    have := Option.some.inj hcont
+    unfold contOf
+    exact this
+  rw [step_eq, step_eq]
+  by_cases h1 : r = nl
+  · have h1' := hnl'.mp h1
+    simp only [h1, h1', if_true]
+  · have h1' : ¬ r' = nl := fun e => h1 (hnl'.mpr e)
+    simp only [h1, h1', if_false]
+    rw [← hspace, hstart, hstart]
+    by_cases h3 : E.isSpace r = true
+    · simp only [h3, if_true]
+    · have h3' : E.isSpace r = false := by simpa using h3
+      rw [hc h3']
+
+theorem scanFrom_congr (E : Env) (n : Bool) (rs rs' : List Rune)
+    (h : rs.map (sig E n) = rs'.map (sig E n)) (s : State) :
+    scanFrom E n s rs = scanFrom E n s rs' := by
+  induction rs generalizing rs' s with
+  | nil =>
+    cases rs' with
+    | nil => rfl
+    | cons a t => simp at h
+  | cons a t ih =>
+    cases rs' with
+    | nil => simp at h
+    | cons b t' =>
+      simp only [List.map_cons, List.cons.injEq] at h
+      unfold scanFrom at ih ⊢
+      simp only [List.foldl_cons]
+      rw [step_congr' E n s a b h.1]
+      exact ih t' h.2 _
+
+theorem tokenize_congr' (E : Env) (n : Bool) (rs rs' : List Rune)
+    (h : rs.map (sig E n) = rs'.map (sig E n)) : tokenizeRunes E n rs = tokenizeRunes E n rs' := by
+  unfold tokenizeRunes scanRunes
+  have := scanFrom_congr E n rs rs' h {}
+  unfold scanFrom at this
+  rw [this]
+
+/-! ### inert runes -/
+
+theorem skip_inert' (E : Env) (n : Bool) (s : State) (r : Rune)
+    (h0 : s.obuf = []) (hr : r ≠ nl) (hs : E.starter r = false) : step E n s r = s := by
+  rw [step_eq]
+  simp only [hr, h0, if_true, if_false]
+  unfold startOrSkip
+  simp [hs]
+
+theorem scanFrom_inert (E : Env) (n : Bool) (ins : List Rune) (s : State)
+    (h0 : s.obuf = []) (hins : ∀ r ∈ ins, r ≠ nl ∧ E.starter r = false) :
+    scanFrom E n s ins = s := by
+  induction ins with
+  | nil => rfl
+  | cons a t ih =>
+    unfold scanFrom at ih ⊢
+    simp only [List.foldl_cons]
+    rw [skip_inert' E n s a h0 (hins a (by simp)).1 (hins a (by simp)).2]
+    exact ih (fun r hr => hins r (by simp [hr]))
+
+theorem insert_inert' (E : Env) (n : Bool) (xs ins ys : List Rune)
+    (h0 : (scanRunes E n xs).obuf = []) (hins : ∀ r ∈ ins, r ≠ nl ∧ E.starter r = false) :
+    tokenizeRunes E n (xs ++ ins ++ ys) = tokenizeRunes E n (xs ++ ys) := by
+  unfold tokenizeRunes
+  congr 1
+  have := scanFrom_inert E n ins (scanRunes E n xs) h0 hins
+  unfold scanFrom at this
+  unfold scanRunes at this ⊢
+  rw [List.foldl_append, List.foldl_append, List.foldl_append, this]
+
+/-! ### empty obuf after line ends and blanks -/
+
+theorem obuf_empty_after_nl' (E : Env) (n : Bool) (s : State)
+    (h : s.obuf.getLast? ≠ some hyphen) : (step E n s nl).obuf = [] := by
+  rw [step_eq]
+  simp only [if_true]
+  unfold nlStep
+  simp only [h, and_false, if_false]
+  by_cases h2 : s.obuf = []
+  · simp [h2]
+  · simp [h2]
+
+theorem space_startOrSkip (E : Env) (n : Bool) (wf : EnvWF E) (s : State) (r : Rune)
+    (hsp : E.isSpace r = true) : startOrSkip E n s r = s := by
+  unfold startOrSkip
+  simp [wf.space_not_starter r hsp]
+
+theorem obuf_empty_after_space' (E : Env) (n : Bool) (wf : EnvWF E) (s : State) (r : Rune)
+    (hsp : E.isSpace r = true) (hr : r ≠ nl) (hd : s.deferredEOL = false) :
+    (step E n s r).obuf = [] := by
+  rw [step_eq]
+  simp only [hr, if_false, hsp, if_true, hd, space_startOrSkip E n wf _ r hsp]
+  by_cases h2 : s.obuf = []
+  · simp [h2]
+  · simp only [h2, if_false]
+    unfold spaceFlush
+    rfl
+
+theorem crlf_equiv' (E : Env) (n : Bool) (wf : EnvWF E) (s : State) (r : Rune)
+    (hsp : E.isSpace r = true) (hr : r ≠ nl)
+    (hd : s.deferredEOL = false) (hw : s.deferredWord = false) (hh : s.obuf.getLast? ≠ some hyphen) :
+    step E n (step E n s r) nl = step E n s nl := by
+  rw [step_eq E n s r]
+  simp only [hr, if_false, hsp, if_true, hd, space_startOrSkip E n wf _ r hsp]
+  by_cases h2 : s.obuf = []
+  · simp [h2]
+  · simp only [h2, if_false]
+    rw [step_eq, step_eq]
+    simp only [if_true]
+    unfold nlStep spaceFlush
+    simp [hw, h2, hh]
+
+/-! ### the clean-state lemma -/
+
+/-- the state `s` seen `k` lines further down, after a document `d` -/
+def lift (d : Doc) (k : Nat) (s : State) : State :=
+  { s with line := s.line + k, doc := appendDoc d (shiftDoc k s.doc) }
+
+theorem processLine_go_shift (E : Env) (n : Bool) (k l : Nat) (ws : List Word) (i : Nat) :
+    processLine.go E n (l + k) ws i = (processLine.go E n l ws i).map (shiftTok k) := by
+  induction ws generalizing i with
+  | nil => simp [processLine.go]
+  | cons w ws ih =>
+    simp only [processLine.go]
+    by_cases h : cleanupToken E i w n = []
+    · simp only [h, if_true]
+      exact ih _
+    · simp only [h, if_false, List.map_cons, ih]
+      rfl
+
+theorem appendLine_lift (E : Env) (n : Bool) (d x : Doc) (k l : Nat) (lb : List Word) :
+    appendLine E n (appendDoc d (shiftDoc k x)) (l + k) lb =
+      appendDoc d (shiftDoc k (appendLine E n x l lb)) := by
+  unfold appendLine
+  by_cases h : lb = []
+  · simp only [h, if_true]
+  · simp only [h, if_false]
+    unfold processLine
+    by_cases hi : E.ignorable (joinLine lb) = true
+    · simp only [hi, if_true]
+      simp [appendDoc, shiftDoc]
+    · simp only [hi]
+      simp [appendDoc, shiftDoc, processLine_go_shift]
+
+theorem startOrSkip_lift (E : Env) (n : Bool) (d : Doc) (k : Nat) (s : State) (r : Rune) :
+    startOrSkip E n (lift d k s) r = lift d k (startOrSkip E n s r) := by
+  unfold startOrSkip
+  by_cases h : E.starter r = true
+  · simp only [h, if_true]; rfl
+  · simp [h]
+
+theorem contStep_lift (d : Doc) (k : Nat) (s : State) (c : List Rune) :
+    contStep (lift d k s) c = lift d k (contStep s c) := by
+  unfold contStep
+  by_cases h : s.deferredEOL = true
+  · have : (lift d k s).deferredEOL = true := h
+    simp only [h, this, if_true]; rfl
+  · have : ¬ (lift d k s).deferredEOL = true := h
+    simp only [h, this]; rfl
+
+theorem spaceFlush_lift (E : Env) (n : Bool) (d : Doc) (k : Nat) (s : State) :
+    spaceFlush E n (lift d k s) = lift d k (spaceFlush E n s) := by
+  unfold spaceFlush
+  by_cases h : s.deferredWord = true
+  · have h' : (lift d k s).deferredWord = true := h
+    simp only [h, h', if_true]
+    simp only [lift, appendLine_lift, Nat.add_right_comm]
+  · have h' : ¬ (lift d k s).deferredWord = true := h
+    simp only [h, h']; rfl
+
+theorem nlStep_lift (E : Env) (n : Bool) (d : Doc) (k : Nat) (s : State) :
+    nlStep E n (lift d k s) = lift d k (nlStep E n s) := by
+  unfold nlStep
+  have ho : (lift d k s).obuf = s.obuf := rfl
+  have hl : (lift d k s).linebuf = s.linebuf := rfl
+  have hli : (lift d k s).line = s.line + k := rfl
+  have hd : (lift d k s).doc = appendDoc d (shiftDoc k s.doc) := rfl
+  simp only [ho, hl, hli, hd]
+  by_cases h : s.obuf ≠ [] ∧ s.obuf.getLast? = some hyphen
+  · rw [if_pos h, if_pos h]; rfl
+  · rw [if_neg h, if_neg h]
+    rw [appendLine_lift]
+    cases n
+    · simp [lift, appendDoc, shiftDoc, shiftTok, Nat.add_right_comm]
+    · simp [lift, Nat.add_right_comm]
+
+theorem step_lift (E : Env) (n : Bool) (d : Doc) (k : Nat) (s : State) (r : Rune) :
+    step E n (lift d k s) r = lift d k (step E n s r) := by
+  rw [step_eq, step_eq]
+  have ho : (lift d k s).obuf = s.obuf := rfl
+  have hde : (lift d k s).deferredEOL = s.deferredEOL := rfl
+  simp only [ho, hde, nlStep_lift, startOrSkip_lift, spaceFlush_lift, contStep_lift]
+  split
+  · rfl
+  · split
+    · rfl
+    · split
+      · split <;> rfl
+      · rfl
+
+theorem scanFrom_lift (E : Env) (n : Bool) (d : Doc) (k : Nat) (ys : List Rune) (s : State) :
+    scanFrom E n (lift d k s) ys = lift d k (scanFrom E n s ys) := by
+  induction ys generalizing s with
+  | nil => rfl
+  | cons a t ih =>
+    unfold scanFrom at ih ⊢
+    simp only [List.foldl_cons]
+    rw [step_lift]
+    exact ih _
+
+theorem finish_lift (E : Env) (n : Bool) (d : Doc) (k : Nat) (s : State) :
+    finish E n (lift d k s) = appendDoc d (shiftDoc k (finish E n s)) := by
+  unfold finish
+  have ho : (lift d k s).obuf = s.obuf := rfl
+  have hl : (lift d k s).linebuf = s.linebuf := rfl
+  have hli : (lift d k s).line = s.line + k := rfl
+  have hd : (lift d k s).doc = appendDoc d (shiftDoc k s.doc) := rfl
+  simp only [ho, hl, hli, hd, appendLine_lift]
+
+theorem clean_eq_lift (s : State) (hc : Clean s) (hl : 1 ≤ s.line) :
+    s = lift s.doc (s.line - 1) {} := by
+  obtain ⟨h1, h2, h3, h4⟩ := hc
+  cases s with
+  | mk obuf linebuf line deferredEOL deferredWord doc =>
+    simp only at h1 h2 h3 h4 hl
+    subst h1 h2 h3 h4
+    cases doc with
+    | mk toks cr =>
+      simp only [lift, appendDoc, shiftDoc, List.map_nil, List.append_nil]
+      congr 1
+      omega
+
+theorem tokenize_from_clean' (E : Env) (n : Bool) (s : State) (hc : Clean s) (hl : 1 ≤ s.line)
+    (ys : List Rune) :
+    finish E n (scanFrom E n s ys) =
+      appendDoc s.doc (shiftDoc (s.line - 1) (tokenizeRunes E n ys)) := by
+  have h := clean_eq_lift s hc hl
+  have e : finish E n (scanFrom E n s ys) =
+      finish E n (scanFrom E n (lift s.doc (s.line - 1) {}) ys) := by rw [← h]
+  rw [e, scanFrom_lift, finish_lift]
+  rfl
+
+theorem step_nl_clean (E : Env) (s : State) (hc : Clean s) :
+    step E true s nl = { s with line := s.line + 1 } := by
+  obtain ⟨h1, h2, h3, h4⟩ := hc
+  rw [step_eq]
+  simp only [if_true]
+  unfold nlStep
+  cases s with
+  | mk obuf linebuf line deferredEOL deferredWord doc =>
+    simp only at h1 h2 h3 h4
+    subst h1 h2 h3 h4
+    simp [appendLine]
+
+theorem blank_line_shift' (E : Env) (xs ys : List Rune) (hc : Clean (scanRunes E true xs))
+    (hl : 1 ≤ (scanRunes E true xs).line) :
+    tokenizeRunes E true (xs ++ [nl] ++ ys) =
+      appendDoc (scanRunes E true xs).doc
+        (shiftDoc ((scanRunes E true xs).line) (tokenizeRunes E true ys)) ∧
+    tokenizeRunes E true (xs ++ ys) =
+      appendDoc (scanRunes E true xs).doc
+        (shiftDoc ((scanRunes E true xs).line - 1) (tokenizeRunes E true ys)) := by
+  constructor
+  · have e : tokenizeRunes E true (xs ++ [nl] ++ ys) =
+        finish E true (scanFrom E true (step E true (scanRunes E true xs) nl) ys) := by
+      unfold tokenizeRunes scanRunes scanFrom
+      simp only [List.foldl_append, List.foldl_cons, List.foldl_nil]
+    rw [e, step_nl_clean E _ hc]
+    have hc' : Clean { scanRunes E true xs with line := (scanRunes E true xs).line + 1 } := hc
+    have := tokenize_from_clean' E true _ hc' (by simp) ys
+    simpa using this
+  · have e : tokenizeRunes E true (xs ++ ys) =
+        finish E true (scanFrom E true (scanRunes E true xs) ys) := by
+      unfold tokenizeRunes scanRunes scanFrom
+      simp only [List.foldl_append]
+    rw [e]
+    exact tokenize_from_clean' E true _ hc hl ys
+
+open LC.V2Env LC.Gen.Unicode
+
+/-! ### the Go tables -/
+
+/-- the binary search of `inRanges` run on a whole interval `[L, H]` of runes at once: `some b`
+when every rune of the interval follows the same path and gets the answer `b` -/
+def uniform (a : Array (Nat × Nat)) (L H : Nat) (lo hi fuel : Nat) : Option Bool :=
+  match fuel with
+  | 0 => some false
+  | fuel + 1 =>
+    if lo < hi then
+      if H < (a[(lo + hi) / 2]!).1 then uniform a L H lo ((lo + hi) / 2) fuel
+      else if (a[(lo + hi) / 2]!).1 ≤ L ∧ (a[(lo + hi) / 2]!).2 < L then
+        uniform a L H ((lo + hi) / 2 + 1) hi fuel
+      else if (a[(lo + hi) / 2]!).1 ≤ L ∧ H ≤ (a[(lo + hi) / 2]!).2 then some true
+      else none
+    else some false
+
+theorem uniform_sound (a : Array (Nat × Nat)) (L H r : Nat) (hL : L ≤ r) (hH : r ≤ H) (b : Bool)
+    (fuel : Nat) : ∀ lo hi, uniform a L H lo hi fuel = some b → inRanges.go a r lo hi fuel = b := by
+  induction fuel with
+  | zero =>
+    intro lo hi h
+    simp only [uniform, Option.some.injEq] at h
+    simp [inRanges.go, h]
+  | succ f ih =>
+    intro lo hi h
+    unfold uniform at h
+    unfold inRanges.go
+    by_cases hlt : lo < hi
+    · simp only [hlt, if_true] at h ⊢
+      by_cases h1 : H < (a[(lo + hi) / 2]!).1
+      · simp only [h1, if_true] at h
+        have : r < (a[(lo + hi) / 2]!).1 := by omega
+        simp only [this, if_true]
+        exact ih _ _ h
+      · simp only [h1, if_false] at h
+        by_cases h2 : (a[(lo + hi) / 2]!).1 ≤ L ∧ (a[(lo + hi) / 2]!).2 < L
+        · simp only [h2, and_self, if_true] at h
+          have n1 : ¬ r < (a[(lo + hi) / 2]!).1 := by omega
+          have n2 : r > (a[(lo + hi) / 2]!).2 := by omega
+          simp only [n1, n2, if_true, if_false]
+          exact ih _ _ h
+        · simp only [h2, if_false] at h
+          by_cases h3 : (a[(lo + hi) / 2]!).1 ≤ L ∧ H ≤ (a[(lo + hi) / 2]!).2
+          · simp only [h3, and_self, if_true, Option.some.injEq] at h
+            have n1 : ¬ r < (a[(lo + hi) / 2]!).1 := by omega
+            have n2 : ¬ r > (a[(lo + hi) / 2]!).2 := by omega
+            simp only [n1, n2, if_false]
+            exact h
+          · simp [h3] at h
+    · simp only [hlt, if_false, Option.some.injEq] at h
+      simp [hlt, h]
+
+/-- a list of interval checks `(L, H, b)` against one table -/
+def uniformAll (a : Array (Nat × Nat)) (l : List (Nat × Nat × Bool)) : Bool :=
+  l.all (fun q => uniform a q.1 q.2.1 0 a.size 64 == some q.2.2)
+
+theorem uniformAll_sound (a : Array (Nat × Nat)) (l : List (Nat × Nat × Bool)) (h : uniformAll a l = true)
+    (L H : Nat) (b : Bool) (hm : (L, H, b) ∈ l) (r : Nat) (hL : L ≤ r) (hH : r ≤ H) :
+    inRanges a r = b := by
+  unfold uniformAll at h
+  rw [List.all_eq_true] at h
+  have := h _ hm
+  simp only [beq_iff_eq] at this
+  exact uniform_sound a L H r hL hH b 64 0 a.size this
+
+def letterChecks : List (Nat × Nat × Bool) :=
+  [(0, 64, false), (65, 90, true), (91, 96, false), (97, 122, true), (123, 169, false),
+   (5760, 5760, false), (8189, 8304, false), (12288, 12288, false)]
+
+theorem letterChecks_ok : uniformAll letterRanges letterChecks = true := by decide +kernel
+
+def digitChecks : List (Nat × Nat × Bool) :=
+  [(0, 47, false), (58, 1631, false), (4250, 6111, false), (7258, 42527, false)]
+
+theorem digitChecks_ok : uniformAll digitRanges digitChecks = true := by decide +kernel
+
+def spaceChecks : List (Nat × Nat × Bool) :=
+  [(9, 13, true), (14, 31, false), (32, 32, true), (33, 132, false), (134, 159, false),
+   (160, 160, true), (8203, 8231, false)]
+
+theorem spaceChecks_ok : uniformAll spaceRanges spaceChecks = true := by decide +kernel
+
+theorem isLetter_true (r : Nat) (h : 65 ≤ r ∧ r ≤ 90 ∨ 97 ≤ r ∧ r ≤ 122) :
+    LC.V2Env.isLetter r = true := by
+  rcases h with h | h
+  · exact uniformAll_sound _ _ letterChecks_ok 65 90 true (by simp [letterChecks]) r h.1 h.2
+  · exact uniformAll_sound _ _ letterChecks_ok 97 122 true (by simp [letterChecks]) r h.1 h.2
+
+theorem isLetter_false (r : Nat)
+    (h : r ≤ 64 ∨ 91 ≤ r ∧ r ≤ 96 ∨ 123 ≤ r ∧ r ≤ 169 ∨ r = 5760 ∨ 8189 ≤ r ∧ r ≤ 8304 ∨ r = 12288) :
+    LC.V2Env.isLetter r = false := by
+  rcases h with h | h | h | h | h | h
+  · exact uniformAll_sound _ _ letterChecks_ok 0 64 false (by simp [letterChecks]) r (by omega) h
+  · exact uniformAll_sound _ _ letterChecks_ok 91 96 false (by simp [letterChecks]) r h.1 h.2
+  · exact uniformAll_sound _ _ letterChecks_ok 123 169 false (by simp [letterChecks]) r h.1 h.2
+  · exact uniformAll_sound _ _ letterChecks_ok 5760 5760 false (by simp [letterChecks]) r (by omega) (by omega)
+  · exact uniformAll_sound _ _ letterChecks_ok 8189 8304 false (by simp [letterChecks]) r h.1 h.2
+  · exact uniformAll_sound _ _ letterChecks_ok 12288 12288 false (by simp [letterChecks]) r (by omega) (by omega)
+
+theorem isDigit_false (r : Nat)
+    (h : r ≤ 47 ∨ 58 ≤ r ∧ r ≤ 1631 ∨ 4250 ≤ r ∧ r ≤ 6111 ∨ 7258 ≤ r ∧ r ≤ 42527) :
+    LC.V2Env.isDigit r = false := by
+  rcases h with h | h | h | h
+  · exact uniformAll_sound _ _ digitChecks_ok 0 47 false (by simp [digitChecks]) r (by omega) h
+  · exact uniformAll_sound _ _ digitChecks_ok 58 1631 false (by simp [digitChecks]) r h.1 h.2
+  · exact uniformAll_sound _ _ digitChecks_ok 4250 6111 false (by simp [digitChecks]) r h.1 h.2
+  · exact uniformAll_sound _ _ digitChecks_ok 7258 42527 false (by simp [digitChecks]) r h.1 h.2
+
+theorem isSpace_true (r : Nat) (h : 9 ≤ r ∧ r ≤ 13 ∨ r = 32 ∨ r = 160) :
+    LC.V2Env.isSpace r = true := by
+  rcases h with h | h | h
+  · exact uniformAll_sound _ _ spaceChecks_ok 9 13 true (by simp [spaceChecks]) r h.1 h.2
+  · exact uniformAll_sound _ _ spaceChecks_ok 32 32 true (by simp [spaceChecks]) r (by omega) (by omega)
+  · exact uniformAll_sound _ _ spaceChecks_ok 160 160 true (by simp [spaceChecks]) r (by omega) (by omega)
+
+theorem isSpace_false (r : Nat)
+    (h : 14 ≤ r ∧ r ≤ 31 ∨ 33 ≤ r ∧ r ≤ 132 ∨ 134 ≤ r ∧ r ≤ 159 ∨ 8203 ≤ r ∧ r ≤ 8231) :
+    LC.V2Env.isSpace r = false := by
+  rcases h with h | h | h | h
+  · exact uniformAll_sound _ _ spaceChecks_ok 14 31 false (by simp [spaceChecks]) r h.1 h.2
+  · exact uniformAll_sound _ _ spaceChecks_ok 33 132 false (by simp [spaceChecks]) r h.1 h.2
+  · exact uniformAll_sound _ _ spaceChecks_ok 134 159 false (by simp [spaceChecks]) r h.1 h.2
+  · exact uniformAll_sound _ _ spaceChecks_ok 8203 8231 false (by simp [spaceChecks]) r h.1 h.2
+
+/-- the binary search of `toLower` on a whole interval: `some none` when no rune of the interval is
+in a case range, `some (some (s, t))` when all are in the range starting at `s` mapped to `t`. -/
+def uniformLower (a : Array (Nat × Nat × Nat)) (L H : Nat) (lo hi fuel : Nat) :
+    Option (Option (Nat × Nat)) :=
+  match fuel with
+  | 0 => some none
+  | fuel + 1 =>
+    if lo < hi then
+      if H < (a[(lo + hi) / 2]!).1 then uniformLower a L H lo ((lo + hi) / 2) fuel
+      else if (a[(lo + hi) / 2]!).1 ≤ L ∧ (a[(lo + hi) / 2]!).2.1 < L then
+        uniformLower a L H ((lo + hi) / 2 + 1) hi fuel
+      else if (a[(lo + hi) / 2]!).1 ≤ L ∧ H ≤ (a[(lo + hi) / 2]!).2.1 then
+        some (some ((a[(lo + hi) / 2]!).1, (a[(lo + hi) / 2]!).2.2))
+      else none
+    else some none
+
+def lowerResult (r : Nat) : Option (Nat × Nat) → Nat
+  | none => r
+  | some (s, t) => t + (r - s)
+
+theorem uniformLower_sound (a : Array (Nat × Nat × Nat)) (L H r : Nat) (hL : L ≤ r) (hH : r ≤ H)
+    (q : Option (Nat × Nat)) (fuel : Nat) :
+    ∀ lo hi, uniformLower a L H lo hi fuel = some q →
+      toLower.go r a lo hi fuel = lowerResult r q := by
+  induction fuel with
+  | zero =>
+    intro lo hi h
+    simp only [uniformLower, Option.some.injEq] at h
+    simp [toLower.go, ← h, lowerResult]
+  | succ f ih =>
+    intro lo hi h
+    unfold uniformLower at h
+    unfold toLower.go
+    by_cases hlt : lo < hi
+    · simp only [hlt, if_true] at h ⊢
+      by_cases h1 : H < (a[(lo + hi) / 2]!).1
+      · simp only [h1, if_true] at h
+        have : r < (a[(lo + hi) / 2]!).1 := by omega
+        simp only [this, if_true]
+        exact ih _ _ h
+      · simp only [h1, if_false] at h
+        by_cases h2 : (a[(lo + hi) / 2]!).1 ≤ L ∧ (a[(lo + hi) / 2]!).2.1 < L
+        · simp only [h2, and_self, if_true] at h
+          have n1 : ¬ r < (a[(lo + hi) / 2]!).1 := by omega
+          have n2 : r > (a[(lo + hi) / 2]!).2.1 := by omega
+          simp only [n1, n2, if_true, if_false]
+          exact ih _ _ h
+        · simp only [h2, if_false] at h
+          by_cases h3 : (a[(lo + hi) / 2]!).1 ≤ L ∧ H ≤ (a[(lo + hi) / 2]!).2.1
+          · simp only [h3, and_self, if_true, Option.some.injEq] at h
+            have n1 : ¬ r < (a[(lo + hi) / 2]!).1 := by omega
+            have n2 : ¬ r > (a[(lo + hi) / 2]!).2.1 := by omega
+            simp only [n1, n2, if_false]
+            rw [← h]
+            rfl
+          · simp [h3] at h
+    · simp only [hlt, if_false, Option.some.injEq] at h
+      simp [hlt, ← h, lowerResult]
+
+def lowerChecks : List (Nat × Nat × Option (Nat × Nat)) :=
+  [(0, 64, none), (65, 90, some (65, 97)), (91, 191, none)]
+
+def uniformLowerAll (a : Array (Nat × Nat × Nat)) (l : List (Nat × Nat × Option (Nat × Nat))) : Bool :=
+  l.all (fun q => uniformLower a q.1 q.2.1 0 a.size 64 == some q.2.2)
+
+theorem lowerChecks_ok : uniformLowerAll lowerRanges lowerChecks = true := by decide +kernel
+
+theorem toLower_of_check (L H : Nat) (q : Option (Nat × Nat)) (hm : (L, H, q) ∈ lowerChecks)
+    (r : Nat) (hL : L ≤ r) (hH : r ≤ H) : LC.V2Env.toLower r = lowerResult r q := by
+  have h := lowerChecks_ok
+  unfold uniformLowerAll at h
+  rw [List.all_eq_true] at h
+  have := h _ hm
+  simp only [beq_iff_eq] at this
+  exact uniformLower_sound lowerRanges L H r hL hH q 64 0 lowerRanges.size this
+
+theorem toLower_id (r : Nat) (h : r ≤ 64 ∨ 91 ≤ r ∧ r ≤ 191) : LC.V2Env.toLower r = r := by
+  rcases h with h | h
+  · exact toLower_of_check 0 64 none (by simp [lowerChecks]) r (by omega) h
+  · exact toLower_of_check 91 191 none (by simp [lowerChecks]) r h.1 h.2
+
+theorem toLower_upper (r : Nat) (h : 65 ≤ r ∧ r ≤ 90) : LC.V2Env.toLower r = r + 32 := by
+  have := toLower_of_check 65 90 (some (65, 97)) (by simp [lowerChecks]) r h.1 h.2
+  rw [this]
+  show 97 + (r - 65) = r + 32
+  omega
+
+theorem punct_none (r : Nat)
+    (h : r ≠ 42 ∧ r ≠ 45 ∧ r ≠ 164 ∧ r ≠ 167 ∧ r ≠ 169 ∧ r ≠ 183 ∧ r ≠ 8208 ∧ r ≠ 8210 ∧ r ≠ 8211 ∧
+      r ≠ 8212) : LC.V2Env.punct r = none := by
+  obtain ⟨h1, h2, h3, h4, h5, h6, h7, h8, h9, h10⟩ := h
+  simp [LC.V2Env.punct, LC.Gen.V2.punctuationMappings, List.find?, Ne.symm h1, Ne.symm h2, Ne.symm h3, Ne.symm h4,
+    Ne.symm h5, Ne.symm h6, Ne.symm h7, Ne.symm h8, Ne.symm h9, Ne.symm h10]
+
+theorem punct_dash (r : Nat) (h : r = 45 ∨ r = 8208 ∨ r = 8210 ∨ r = 8211 ∨ r = 8212) :
+    LC.V2Env.punct r = some [45] := by
+  rcases h with h | h | h | h | h <;> subst h <;> decide
+
+/-- `sig` of the Go environment, which does not involve the entity decoder -/
+def gsig (c : Nat) : Sig where
+  isNl := c == nl
+  first := if (LC.V2Env.isLetter c || LC.V2Env.isDigit c || c = 38 || c = 40) then
+    some (LC.V2Env.toLower c) else none
+  space := LC.V2Env.isSpace c
+  cont := if LC.V2Env.isSpace c then none else
+    some (match LC.V2Env.punct c with
+      | some rep => rep.map LC.V2Env.toLower
+      | none => [LC.V2Env.toLower c])
+
+theorem sig_goEnv (u : Word → Word) (c : Nat) : sig (goEnv u) true c = gsig c := by
+  unfold sig gsig goEnv Env.starter
+  simp only [if_true]
+  rfl
+
+theorem starter_goEnv (u : Word → Word) (c : Nat) :
+    (goEnv u).starter c = (LC.V2Env.isLetter c || LC.V2Env.isDigit c || c = 38 || c = 40) := by
+  unfold Env.starter goEnv
+  simp only []
+
+theorem ascii_case_sig' (u : Word → Word) (c : Nat) (h : 65 ≤ c ∧ c ≤ 90) :
+    sig (goEnv u) true c = sig (goEnv u) true (c + 32) := by
+  rw [sig_goEnv, sig_goEnv]
+  unfold gsig
+  have l1 := isLetter_true c (by omega)
+  have l2 := isLetter_true (c + 32) (by omega)
+  have s1 := isSpace_false c (by omega)
+  have s2 := isSpace_false (c + 32) (by omega)
+  have t1 := toLower_upper c h
+  have t2 := toLower_id (c + 32) (by omega)
+  have p1 := punct_none c (by omega)
+  have p2 := punct_none (c + 32) (by omega)
+  have n1 : (c == nl) = false := by simp [nl]; omega
+  have n2 : (c + 32 == nl) = false := by simp [nl]
+  simp [l1, l2, s1, s2, t1, t2, p1, p2, n1, n2]
+
+theorem dash_sig' (u : Word → Word) (c : Nat)
+    (h : c = 0x2010 ∨ c = 0x2012 ∨ c = 0x2013 ∨ c = 0x2014) :
+    sig (goEnv u) true c = sig (goEnv u) true 45 := by
+  rw [sig_goEnv, sig_goEnv]
+  unfold gsig
+  have l1 := isLetter_false c (by omega)
+  have l2 := isLetter_false 45 (by omega)
+  have d1 := isDigit_false c (by omega)
+  have d2 := isDigit_false 45 (by omega)
+  have s1 := isSpace_false c (by omega)
+  have s2 := isSpace_false 45 (by omega)
+  have t := toLower_id 45 (by omega)
+  have p1 := punct_dash c (by omega)
+  have p2 := punct_dash 45 (by omega)
+  have n1 : (c == nl) = false := by simp [nl]; omega
+  have n2 : ((45 : Nat) == nl) = false := by simp [nl]
+  have e1 : ¬ c = 38 := by omega
+  have e2 : ¬ c = 40 := by omega
+  simp [l1, l2, d1, d2, s1, s2, t, p1, p2, n1, n2, e1, e2]
+
+theorem blank_sig' (u : Word → Word) (c : Nat)
+    (h : c = 9 ∨ c = 13 ∨ c = 12 ∨ c = 11 ∨ c = 0xA0) :
+    sig (goEnv u) true c = sig (goEnv u) true 32 := by
+  rw [sig_goEnv, sig_goEnv]
+  unfold gsig
+  have l1 := isLetter_false c (by omega)
+  have l2 := isLetter_false 32 (by omega)
+  have d1 := isDigit_false c (by omega)
+  have d2 := isDigit_false 32 (by omega)
+  have s1 := isSpace_true c (by omega)
+  have s2 := isSpace_true 32 (by omega)
+  have n1 : (c == nl) = false := by simp [nl]; omega
+  have n2 : ((32 : Nat) == nl) = false := by simp [nl]
+  have e1 : ¬ c = 38 := by omega
+  have e2 : ¬ c = 40 := by omega
+  simp [l1, l2, d1, d2, s1, s2, n1, n2, e1, e2]
+
+theorem decoration_not_starter' (u : Word → Word) (c : Nat)
+    (h : c ∈ [47, 35, 42, 59, 45, 62, 124, 37, 32, 9, 13]) : (goEnv u).starter c = false := by
+  rw [starter_goEnv]
+  simp only [List.mem_cons, List.not_mem_nil, or_false] at h
+  have l1 := isLetter_false c (by omega)
+  have d1 := isDigit_false c (by omega)
+  have e1 : ¬ c = 38 := by omega
+  have e2 : ¬ c = 40 := by omega
+  simp [l1, d1, e1, e2]
+
+theorem inRanges_go_sound (a : Array (Nat × Nat)) (r : Nat) (fuel : Nat) :
+    ∀ lo hi, hi ≤ a.size → inRanges.go a r lo hi fuel = true →
+      ∃ p ∈ a.toList, p.1 ≤ r ∧ r ≤ p.2 := by
+  induction fuel with
+  | zero => intro lo hi _ h; simp [inRanges.go] at h
+  | succ f ih =>
+    intro lo hi hs h
+    unfold inRanges.go at h
+    by_cases hlt : lo < hi
+    · simp only [hlt, if_true] at h
+      have hm : (lo + hi) / 2 < a.size := by omega
+      by_cases h1 : r < (a[(lo + hi) / 2]!).1
+      · simp only [h1, if_true] at h
+        exact ih _ _ (by omega) h
+      · simp only [h1, if_false] at h
+        by_cases h2 : r > (a[(lo + hi) / 2]!).2
+        · simp only [h2, if_true] at h
+          exact ih _ _ hs h
+        · refine ⟨a[(lo + hi) / 2]!, ?_, by omega, by omega⟩
+          rw [getElem!_pos a _ hm]
+          exact Array.getElem_mem_toList hm
+    · simp [hlt] at h
+
+theorem isSpace_cases (r : Nat) (h : LC.V2Env.isSpace r = true) :
+    9 ≤ r ∧ r ≤ 13 ∨ r = 32 ∨ r = 133 ∨ r = 160 ∨ r = 5760 ∨ 8192 ≤ r ∧ r ≤ 8202 ∨
+      8232 ≤ r ∧ r ≤ 8233 ∨ r = 8239 ∨ r = 8287 ∨ r = 12288 := by
+  obtain ⟨p, hp, h1, h2⟩ := inRanges_go_sound spaceRanges r 64 0 _ (Nat.le_refl _) h
+  simp only [spaceRanges, List.mem_cons, List.not_mem_nil, or_false] at hp
+  rcases hp with hp | hp | hp | hp | hp | hp | hp | hp | hp | hp <;> subst hp <;> simp only at h1 h2 <;> omega
+
+theorem space_not_starter_go (u : Word → Word) (r : Nat) (h : LC.V2Env.isSpace r = true) :
+    (goEnv u).starter r = false := by
+  have hc := isSpace_cases r h
+  rw [starter_goEnv]
+  have l1 := isLetter_false r (by omega)
+  have d1 := isDigit_false r (by omega)
+  have e1 : ¬ r = 38 := by omega
+  have e2 : ¬ r = 40 := by omega
+  simp [l1, d1, e1, e2]
+
+theorem goEnv_wf' (u : Word → Word) : EnvWF (goEnv u) where
+  space_not_starter := fun r h => space_not_starter_go u r h
+  nl_space := isSpace_true 10 (by omega)
+
 end LC.V2Tok
